@@ -613,3 +613,44 @@ for _variant, _existing in (("first-hook-of-the-test", False), ("test-already-ha
         replayable=False,
     )
 
+
+# ------------------------------------------------------------------------------------------------- _validate_hook / register_hook_with_name: a hook is accepted only on a scope its specification allows
+def _with_specs(method):
+    def setup(it):
+        from pyvc.verify import locate
+        from pyvc.values import VObj
+
+        _, _, fn = locate(it, H + "HookDispatcher." + method)
+        cls = it.resolve_class(H + "HookDispatcher")
+        scope_cls = it.resolve_class(H + "HookScope")
+        it.ensure_enum(scope_cls)
+        G, S, T = (scope_cls.members[n] for n in ("GLOBAL", "SCHEMA", "TEST"))
+        spec = lambda n, scopes: VObj(it.resolve_class(H + "RegisteredHook"), {"signature": VObj(it.resolve_class("spec:Signature"), {"parameters": ("context", "x")[:n]}), "scopes": scopes})
+        # the specification table: one hook allowed everywhere, one only at GLOBAL scope, one with a single parameter
+        cls.attr_cache["_specs"] = {"before_generate_query": spec(2, [G, S, T]), "before_load_schema": spec(2, [G]), "after_init": spec(1, [G, S])}
+        return fn, {}
+
+    return setup
+
+
+R.extern["inspect.signature"] = lambda it, a, k: __import__("pyvc.values", fromlist=["VObj"]).VObj(it.resolve_class("spec:Signature"), {"parameters": a[0].fields["params"]})
+ALLOWED = "{'before_generate_query': ['GLOBAL', 'SCHEMA', 'TEST'], 'before_load_schema': ['GLOBAL'], 'after_init': ['GLOBAL', 'SCHEMA']}"
+ARITY = "{'before_generate_query': 2, 'before_load_schema': 2, 'after_init': 1}"
+R.contract(
+    H + "HookDispatcher._validate_hook",
+    prop="C19",
+    setup=_with_specs("_validate_hook"),
+    args={"self": Obj(H + "HookDispatcher", scope=EnumOf(H + "HookScope"), _hooks=Const({})), "name": Choice("before_generate_query", "before_load_schema", "after_init", "no_such_hook"),
+          "hook": Obj("spec:UserFunction", params=Choice(("context",), ("context", "x"), ("context", "x", "y")))},
+    raises=["TypeError", "ValueError"],
+    ensures={
+        # accepted only: a known hook name, on a dispatcher whose scope the hook's specification lists, with the specified number of parameters
+        "accepted_only_on_an_allowed_scope_with_the_specified_arity": "name in " + ALLOWED + " and self.scope.name in " + ALLOWED + "[name] and length(hook.params) == " + ARITY + "[name]",
+    },
+    raises_ensures={
+        "rejected_only_for_a_reason": "(raised == 'ValueError' and name in " + ALLOWED + " and self.scope.name not in " + ALLOWED + "[name]) or "
+                                      "(raised == 'TypeError' and (name not in " + ALLOWED + " or length(hook.params) != " + ARITY + "[name]))",
+    },
+    replayable=False,
+)
+R.contracts[H + "HookDispatcher._validate_hook"].inline = True
